@@ -83,7 +83,7 @@ SESSION_OBLIGATIONS = ('data file is created exclusively', 'a data file is creat
 REPLAY_SESSION = '''
 from vlib import build, refmodel
 import numpy as np, tempfile, os, shutil, sys, glob, hashlib
-top = tempfile.mkdtemp(prefix='drf_'); ch = os.path.join(top, 'ch'); os.makedirs(ch)
+top = tempfile.mkdtemp(prefix='tmp.drf_'); ch = os.path.join(top, 'ch'); os.makedirs(ch)
 cfg = dict(n=10, d=1, sc=3600, fc=1000, start=10**10)
 def session(start_rel, n, cont):
     rw = refmodel.RealWriter(build, ch, cfg['n'], cfg['d'], cfg['sc'], cfg['fc'], cfg['start'], cont)
@@ -112,7 +112,7 @@ REPLAY_STALE = '''
 from vlib import build, refmodel
 import numpy as np, tempfile, os, shutil, sys, glob, hashlib
 import h5py
-top = tempfile.mkdtemp(prefix='drf_'); ch = os.path.join(top, 'ch')
+top = tempfile.mkdtemp(prefix='tmp.drf_'); ch = os.path.join(top, 'ch')
 cfg = dict(n=10, d=1, sc=3600, fc=1000, start=10**10)
 bad = 0
 for cont in (0, 1):
